@@ -246,6 +246,10 @@ pub fn run_check(prop: &str, tier: &str) -> i32 {
                 seqs.push(s);
             }
             seq_check(prop, tier, seqs, &["C08", "C01"], budget * 0.2, &mut report);
+            // labelled sampling supplement: racing overwrites, then scan vs point read at quiescence
+            if report.violations.is_empty() {
+                c14::stress_supplement(&mut report, if thorough { 10.0 } else { 2.5 });
+            }
             report.set("explanation", "controlled scheduler over application threads, the flush worker and the periodic coordinator of a real persistent store on 3-6 block devices; every read result is checked by linearization against the model (StaleExtent permitted only under a concurrent rewrite) and an I/O monitor fails the run if a device write intersects an extent a reader still holds");
         }
         "C17" => {
